@@ -150,6 +150,12 @@ type muxHarness struct {
 	stops []func()
 }
 
+func (m *muxHarness) forget(la string) {
+	m.mu.Lock()
+	delete(m.got, la)
+	m.mu.Unlock()
+}
+
 func (m *muxHarness) serve(key string, l *vhost.Listener) {
 	go func() {
 		for {
@@ -218,6 +224,8 @@ func (r *routesRun) historyMux(traceNo, steps, maxRoutes int, kind string) {
 					continue
 				}
 				la := c.LocalAddr().String()
+				h.forget(la)
+				h.forget(la) // the OS may hand out a source port again that an earlier probe of this history used
 				if kind == "https" {
 					tc := tls.Client(c, &tls.Config{ServerName: strings.ToLower(host), InsecureSkipVerify: true})
 					_ = c.SetDeadline(time.Now().Add(800 * time.Millisecond))
@@ -322,6 +330,7 @@ func (r *routesRun) historyMuxAuth(traceNo, steps, maxRoutes int) {
 				continue
 			}
 			la := c.LocalAddr().String()
+			h.forget(la)
 			req := fmt.Sprintf("CONNECT %s:443 HTTP/1.1\r\nHost: %s:443\r\n", host, host)
 			if pa.class != "absent" {
 				req += "Proxy-Authorization: " + pa.raw + "\r\n"
